@@ -64,6 +64,16 @@ def gen_table_cases(ctx, scale):
             else: hc = k & 3
             kh.append('%d:%d' % (k, hc))
         out.append('tblm %s %d %d %s' % (kind, n, cap, ' '.join(kh)))
+    # full-load tables: capacity = every slot; fill the table to the very last slot (the last insertions need
+    # probes up to bucketCount-1), with one or two home buckets
+    for i in range(12 * scale):
+        kind = r.choice(['o2f', 'o8f']); n = 4; cap = 3 if kind == 'o2f' else 7
+        total = (2 ** n) * cap
+        m = total - r.choice([0, 0, 0, 1, 2])
+        keys = list(range(1, total + 50)); r.shuffle(keys); keys = keys[:m]
+        homes = [r.below(2 ** n) for _ in range(r.choice([1, 1, 2]))]
+        kh = ['%d:%d' % (k, r.choice(homes) + (r.below(1 << 20) << n)) for k in keys]
+        out.append('tblm %s %d %d %s' % (kind, n, cap, ' '.join(kh)))
     return out
 
 def oracle(ctx, cases, impl_lines):
@@ -88,6 +98,8 @@ def oracle(ctx, cases, impl_lines):
                 if out.strip() != 'skip':
                     if 'found=true' not in out:
                         bad.append((c, out, 'a key inserted into the open-addressing table is not found'))
+                    if 'full=true' in out and len(w) - 4 <= (2 ** int(w[2])) * int(w[3]):
+                        bad.append((c, out, 'insertion reported "Hash table is full" although a bucket still had room'))
                     # a bound > 7 (Open8) / any displaced element makes the case non-trivial
                     if any(int(x.split(':')[2]) > 0 for x in out.split(' ')[0].split(';') if x): ctx.nontrivial.add(c[:200])
             elif w[0] == 'cov':
